@@ -311,6 +311,8 @@ def run(ctx):
                                   (key, n.ty, mutex), line=n.line)
     rep.ok("D5-ATOMIC-FLAG", "orc/", "scan", "%d unlocked reads of lock-written variables found in lock-taking functions" % n5)
 
+    d9_shared_code_readonly(db, rep)
+
     # ---- D6: library initialisation is serialised ----------------------------------
     oi = db.func("orc_init", "orc")
     rep.saw(oi)
@@ -523,3 +525,34 @@ def d8(ctx, rep):
     rep.extra["generated_wrappers_analysed"] = nfun
     if nfun < 100 or nonce < 50:
         raise AnalysisBroken("only %d generated wrappers (%d with the once protocol) were analysed" % (nfun, nonce))
+
+
+def d9_shared_code_readonly(db, rep):
+    """D9: one compiled function may be run by many executors at once.  Everything a run writes must belong to the executor (or
+    be local): a store through a pointer to the shared OrcCode / OrcProgram (or into their variable tables) in the run or
+    emulation path is a data race between concurrent calls - and lets one call compute with another call's values."""
+    SHARED = ("OrcCode", "OrcCodeVariable", "OrcProgram", "OrcVariable", "struct _OrcCode", "struct _OrcProgram")
+    n = 0
+    tu = db.tu("orcexecutor")
+    for fn in ("orc_executor_emulate", "orc_executor_run", "orc_executor_run_backup"):
+        f = tu.fn[fn]
+        rep.saw(f)
+        bad = []
+        for x in f.walk():
+            if x.k in ("BinaryOperator", "CompoundAssignOperator") and x.op.endswith("=") and x.op not in ("==", "!=", "<=", ">="):
+                l = strip_casts(x.c[0])
+                y = l
+                while y is not None and y.k in ("MemberExpr", "ArraySubscriptExpr", "UnaryOperator", "ParenExpr", "CStyleCastExpr"):
+                    if y.k == "MemberExpr" and y.get("arrow") and y.c:
+                        bt = (y.c[0].ty or "").replace("const ", "").replace("*", "").strip()
+                        if bt in SHARED:
+                            bad.append((x, unparse(l)[:50], bt))
+                            break
+                    y = y.c[0] if y.c else None
+        n += 1
+        rep.check(not bad, "D9-SHARED-CODE-READONLY", where(f), "writes@%s" % fn,
+                  "%s stores only into the executor and its own locals" % fn,
+                  "%s stores into `%s`, reached through a pointer to the shared %s: two executors running the same code at once overwrite each other's "
+                  "value there (the second call computes with the first call's parameters)" % ((fn, bad[0][1], bad[0][2]) if bad else ("", "", "")),
+                  line=bad[0][0].line if bad else f.line)
+    return n
